@@ -1,24 +1,26 @@
-(* Correspondence cases for C04: one transaction (a call tree) run on a real chain from an observed pre-state;
-   what the chain showed afterwards is compared with the mechanism model (as the code is, and with the candidate
-   repair of ContractHasTryBlock) and with the ideal transactional semantics. *)
+(* Correspondence cases for C04: transactions (call trees) run on a real chain from an observed pre-state;
+   what the chain showed afterwards is compared with the mechanism model (ContractHasTryBlock before and after the
+   repair of F13) and with the ideal transactional semantics. *)
 From NG Require Export Exec.CallTree.
 From NG Require Import Common.Tactics Common.HarnessLib Exec.Spec Exec.CallTreeProofs.
 Open Scope N_scope.
 
-Definition entry3 := (N * N * N)%type.     (* (contract, key, value) *)
+Definition entry3 := (N * N * N)%type.     (* (namespace, key, value); absent = 0 *)
 
 Inductive case :=
-| CTree (cls : N)                          (* 0: inside the guards (spec = ideal semantics); 1: outside *)
-        (pre : list entry3) (bals : list N) (fee : N)        (* pre-state: storage, GAS of accounts 0..4, fee/byte *)
+| CTree (cls : N)                          (* 0: syntactically inside g1 and g2; 1: not *)
+        (pre : list entry3) (fee vc : N)   (* pre-state: storage of all namespaces, Policy fee, NEO votesChanged *)
+        (sender sfee : N)                  (* who pays, system + network fee *)
         (p : prog)
-        (halt : bool) (post : list entry3) (bals' : list N) (feeC feeS : N)   (* observed after the block *)
-        (evs : list event)                                   (* the transaction's stored notification list *)
-| CBlock (pre : list entry3) (bals : list N) (fee : N)        (* several transactions in ONE block, one reused VM *)
-         (txs : list (bool * prog * bool * list event))       (* (ran out of gas, tree, observed halt, observed events) *)
-         (post : list entry3) (bals' : list N) (feeC feeS : N).
+        (halt : bool) (post : list entry3) (feeC feeS vc' : N)   (* observed after the block *)
+        (evs : list event)                                       (* the transaction's stored notification list *)
+| CBlock (pre : list entry3) (fee vc : N)                        (* several transactions in ONE block, one reused VM *)
+         (txs : list (bool * N * N * prog * bool * list event))  (* (ran out of gas, sender, fee, tree, halt, events) *)
+         (post : list entry3) (feeC feeS vc' : N).
 
 Definition nkeys : N := 6.
-Definition naccounts : N := 5.
+Definition naccounts : N := 7.             (* 0..2 contracts, 3..4 plain, 5..6 senders *)
+Definition nneo : N := 5.                  (* accounts that may hold NEO *)
 
 (* entry script: no storage, no manifest -> only control flow and calls *)
 Fixpoint entry_ok (p : prog) : bool :=
@@ -31,42 +33,52 @@ Fixpoint entry_ok (p : prog) : bool :=
 (* keys, accounts and values stay inside the observed universe *)
 Fixpoint small (p : prog) : bool :=
   match p with
-  | Put k v => (k <? nkeys) && (v <? 256)
+  | Put k v => (k <? nkeys) && (v <? 256) && negb (v =? 0)
   | Del k | NotifyVal k => k <? nkeys
   | Move to amt cb => (to <? naccounts) && small cb
+  | MoveNeo to amt cb => (to <? nneo) && small cb
   | SetFee v => v <=? 100000000
   | Seq a b => small a && small b
   | Call c fl b => small b
   | Try b c f => small b && oall small c && oall small f
   | _ => true
   end.
-
-Fixpoint bal_entries (i : N) (bs : list N) : store :=
-  match bs with
-  | [] => []
-  | b :: r => (if b =? 0 then [] else [((GASNS, i), Some b)]) ++ bal_entries (N.succ i) r
+Fixpoint has_neo (p : prog) : bool :=
+  match p with
+  | MoveNeo _ _ _ => true
+  | Move _ _ cb => has_neo cb
+  | Seq a b => has_neo a || has_neo b
+  | Call _ _ b => has_neo b
+  | Try b c f => has_neo b || negb (oall (fun x => negb (has_neo x)) c) || negb (oall (fun x => negb (has_neo x)) f)
+  | _ => false
   end.
-Definition base_of (pre : list entry3) (bals : list N) (fee : N) : layer :=
-  mkL (map (fun e => let '(c, k, v) := e in ((c, k), Some v)) pre ++ bal_entries 0 bals ++ [((POLNS, 0), Some fee)])
-      (Some fee).
 
-Fixpoint find3 (c k : N) (l : list entry3) : option N :=
+Definition base_of (pre : list entry3) (fee vc : N) : layer :=
+  mkL (map (fun e => let '(c, k, v) := e in ((c, k), if v =? 0 then None else Some v)) pre ++ [((POLNS, 0), Some fee)])
+      (Some fee) (Some vc).
+
+Fixpoint find3 (c k : N) (l : list entry3) : N :=
   match l with
-  | [] => None
-  | (c', k', v) :: r => if (c =? c') && (k =? k') then Some v else find3 c k r
+  | [] => 0
+  | (c', k', v) :: r => if (c =? c') && (k =? k') then v else find3 c k r
   end.
 
-Definition range (n : N) : list N := map N.of_nat (seq 0 (N.to_nat n)).
+Definition range (a n : N) : list N := map (fun i => a + N.of_nat i) (seq 0 (N.to_nat n)).
 Definition oN_eqb := option_eqb N.eqb.
 
-(* the flat store [st] with setting [feeC]/[feeS] shows exactly the observed post-state *)
-Definition state_is (st : store) (feeC' : N) (post : list entry3) (bals' : list N) (feeC feeS : N) : bool :=
-  forallb (fun c => forallb (fun k => oN_eqb (lookup (c, k) st) (find3 c k post)) (range nkeys)) (range ncontracts)
-  && forallb (fun e => let '(c, k, _) := e in (c <? ncontracts) && (k <? nkeys)) post
-  && forallb (fun a => dflt (lookup (GASNS, a) st) =? nth (N.to_nat a) bals' 0) (range naccounts)
-  && (length bals' =? N.to_nat naccounts)%nat
+(* the observed universe of storage keys (pending GAS claims, keys 10.., are inputs only) *)
+Definition universe : list key :=
+  flat_map (fun c => map (fun k => (c, k)) (range 0 nkeys)) (range 0 ncontracts)
+  ++ map (fun a => (GASNS, a)) (range 0 naccounts)
+  ++ map (fun a => (NEONS, a)) (range 0 nneo ++ range 20 nneo ++ [30; 31]).
+Definition in_universe (k : key) : bool := existsb (key_eqb k) universe.
+
+(* the flat store [st] with cache values [feeC'] / [vc0] shows exactly the observed post-state *)
+Definition state_is (st : store) (feeC' vc0 : N) (post : list entry3) (feeC feeS vc' : N) : bool :=
+  forallb (fun k => dflt (lookup k st) =? find3 (fst k) (snd k) post) universe
+  && forallb (fun e => let '(c, k, _) := e in in_universe (c, k)) post
   && oN_eqb (lookup (POLNS, 0) st) (Some feeS)
-  && (feeC' =? feeC).
+  && (feeC' =? feeC) && (vc0 =? vc').
 
 Definition event_eqb (a b : event) : bool :=
   match a, b with
@@ -74,71 +86,76 @@ Definition event_eqb (a b : event) : bool :=
   | EvV c k v, EvV c' k' v' => (c =? c') && (k =? k') && oN_eqb v v'
   | EvP c v, EvP c' v' => (c =? c') && (v =? v')
   | EvT f t a, EvT f' t' a' => (f =? f') && (t =? t') && (a =? a')
+  | EvTN f t a, EvTN f' t' a' => (f =? f') && (t =? t') && (a =? a')
   | _, _ => false
   end.
 
-Definition mech_ok (m : txout) (halt : bool) post bals' feeC feeS evs : bool :=
-  Bool.eqb (halted m) halt && list_eqb event_eqb (events m) evs
-  && state_is (lst (after m)) (dflt (lnc (after m))) post bals' feeC feeS.
+Definition layer_is (b : layer) post feeC feeS vc' : bool :=
+  state_is (lst b) (dflt (lnc b)) (dflt (lvc b)) post feeC feeS vc'.
+Definition mech_ok (m : txout) (halt : bool) post feeC feeS vc' evs : bool :=
+  Bool.eqb (halted m) halt && list_eqb event_eqb (events m) evs && layer_is (after m) post feeC feeS vc'.
 
 (* a block against single transactions threaded through the state the halted ones leave.
    A transaction that ran out of gas is not predicted (gas is not modelled): it must have faulted, and counts as absent. *)
-Fixpoint block_mech (pol : policy) (base : layer) (txs : list (bool * prog * bool * list event)) : option layer :=
+Definition btx := (bool * N * N * prog * bool * list event)%type.
+Fixpoint block_mech (pol : policy) (base : layer) (txs : list btx) : option layer :=
   match txs with
   | [] => Some base
-  | (oog, p, halt, evs) :: r =>
+  | (oog, _, _, p, halt, evs) :: r =>
       if oog then (if halt then None else block_mech pol base r)
       else
         let o := run_tx pol base p in
         if Bool.eqb (halted o) halt && list_eqb event_eqb (events o) evs then block_mech pol (after o) r else None
   end.
-Fixpoint block_ideal (base : layer) (txs : list (bool * prog * bool * list event)) : option layer :=
+Fixpoint block_ideal (base : layer) (txs : list btx) : option layer :=
   match txs with
   | [] => Some base
-  | (oog, p, halt, evs) :: r =>
+  | (oog, _, _, p, halt, evs) :: r =>
       if oog then (if halt then None else block_ideal base r)
       else
         let i := irun_tx base p in
         if Bool.eqb (ihalted i) halt then
           if halt then
             if list_eqb event_eqb (intf (iafter i)) evs
-            then block_ideal (mkL (ist (iafter i)) (Some (ifee (iafter i)))) r else None
+            then block_ideal (mkL (ist (iafter i)) (Some (ifee (iafter i))) (Some (ivc (iafter i)))) r else None
           else block_ideal base r
         else None
   end.
 
 Definition check_case (c : case) : N :=
   match c with
-  | CBlock pre bals fee txs post bals' feeC feeS =>
-      let base := base_of pre bals fee in
-      if negb (forallb (fun t => let '(_, p, _, _) := t in entry_ok p && small p && guard Lazy p) txs
-               && (length bals =? N.to_nat naccounts)%nat) then 3
+  | CBlock pre fee vc txs post feeC feeS vc' =>
+      (* per-transaction fee accounting: every fee is burnt from its sender before anything runs *)
+      let base := charge_all (map (fun t : btx => let '(_, s, f, p, _, _) := t in (s, f, p)) txs) (base_of pre fee vc) in
+      if negb (forallb (fun t : btx => let '(_, _, _, p, _, _) := t in
+                          entry_ok p && small p && g1 p && g2 p && negb (has_neo p)) txs) then 3
       else
-        let fin pol := match block_mech pol base txs with
-                       | Some b => state_is (lst b) (dflt (lnc b)) post bals' feeC feeS
-                       | None => false end in
-        let spec_ok := match block_ideal base txs with
-                       | Some b => state_is (lst b) (dflt (lnc b)) post bals' feeC feeS
-                       | None => false end in
+        let fin pol := match block_mech pol base txs with Some b => layer_is b post feeC feeS vc' | None => false end in
+        let spec_ok := match block_ideal base txs with Some b => layer_is b post feeC feeS vc' | None => false end in
         code_of (fin Lazy || fin Eager) spec_ok
-  | CTree cls pre bals fee p halt post bals' feeC feeS evs =>
-      let base := base_of pre bals fee in
-      if negb (entry_ok p && small p && (length bals =? N.to_nat naccounts)%nat) then 3
+  | CTree cls pre fee vc sender sfee p halt post feeC feeS vc' evs =>
+      let base := charge sender sfee (base_of pre fee vc) in
+      if negb (entry_ok p && small p) then 3
       else
-        let model_ok := mech_ok (run_tx Lazy base p) halt post bals' feeC feeS evs
-                        || mech_ok (run_tx Eager base p) halt post bals' feeC feeS evs in
+        let okE := mech_ok (run_tx Eager base p) halt post feeC feeS vc' evs in
+        let okL := mech_ok (run_tx Lazy base p) halt post feeC feeS vc' evs in
+        let model_ok := okE || okL in
+        (* the ghost flag of the model run that matches: did a layered frame / payment callback return while an
+           exception was pending? *)
+        let flagged := if okE then negb (clean (run_tx Eager base p))
+                       else if okL then negb (clean (run_tx Lazy base p)) else false in
         let i := irun_tx base p in
-        (* the property's own text: a fault changes nothing; a halt applies exactly the ideal effects and shows
-           exactly the ideal notification list (the notification record of a faulted transaction is diagnostic) *)
+        (* the property's own text: a fault changes nothing but the fee; a halt applies exactly the ideal effects and
+           shows exactly the ideal notification list (the notification record of a faulted transaction is diagnostic) *)
         let spec_ok :=
           Bool.eqb (ihalted i) halt &&
-          (if halt then state_is (ist (iafter i)) (ifee (iafter i)) post bals' feeC feeS
+          (if halt then state_is (ist (iafter i)) (ifee (iafter i)) (ivc (iafter i)) post feeC feeS vc'
                         && list_eqb event_eqb (intf (iafter i)) evs
-           else state_is (lst base) fee post bals' feeC feeS) in
+           else layer_is base post feeC feeS vc') in
         if cls =? 0 then
-          if guard Lazy p then code_of model_ok spec_ok else 3
+          if g1 p && g2 p then code_of model_ok spec_ok else 3
         else
           if spec_ok then (if model_ok then 0 else 1)
-          else if model_ok then 2        (* the known mechanism, outside the guards: see notes/C04.md *)
+          else if model_ok && flagged then 2   (* the known mechanism F40: exactly the model's prediction, ghost flag up *)
           else 3
   end.
